@@ -36,6 +36,31 @@ CHECKS = {
             "Part A: all sequences of <=4 (quick) / <=6 (thorough) pool operations (add, competing add with higher/equal plasma ratio and smaller/larger hash, forced add, competitor of a confirmed block, orphan, four competing momentums confirming different subsets, re-delivery, rollback) on a real node; accept/refuse verdict, pooled chain per account and confirmed frontier compared with a list-per-account reference after every step, plus the single-chain invariant evaluated independently. Part B: real pools of 0..101 (thorough ..130) user blocks plus 0-4 contract batches (refund send + receive created by the real producer path); ALL orders of the per-account groups are fed to the real filter; result must respect the 100-block limit, be a per-account prefix and never split a batch. Part C: three thread scenarios on a real node (inserter vs readers; producing pillar vs sync InsertChain of a competing momentum at the same height vs reader; rollback vs readers), all schedules with <=1 (quick) / <=2 (thorough) preemptions over ~150-450 scheduling points per execution; no deadlock/panic, reader tuples must equal a state of the sequential execution, final raw store and consensus answers must equal a fresh node's replay of the chain the node reports.",
             "Scheduling at lock/leveldb-write granularity via the vsync overlay; data races below that granularity are not decided by this check.",
             "5/C14"),
+    "C01": ("model_checking",
+            "bounded-history explicit-state exploration on a real node (lexicographic DFS with exact-state prefix pruning) with a whole-ledger invariant evaluated after every transition",
+            "All histories of depth 3 (quick) / depth 4 plus an extended 25-op alphabet at depth 3 (thorough) over 16 operations (transfers incl. whole balance and balance+1, custom-token transfers, receives: valid / by the wrong account / repeated, token issue / mint within and over max / mint by non-owner / burn, refunded and successful contract calls, momentums) from 2 (quick) / 3 (thorough, incl. pending rewards) base states. After every transition an independent scan of the raw ledger (all account chains and balances) checks at the confirmed ledger and at the pool view, for every token: recorded supply == sum of balances + sum of sends without a receive, supply <= max supply, no negative balance; and that recorded supplies changed only when a token-contract receive block was added.",
+            "Live-network receiver-enforcement regime; amounts from a boundary set; epochs shrunk to 6 momentums.",
+            "5/C01"),
+    "C04": ("model_checking",
+            "bounded-history explicit-state exploration on a real node with whole-ledger receive-once / FIFO invariants recomputed independently after every transition",
+            "All histories of depth 3 (quick) / 4 + extended alphabet (thorough) over 15 operations (calls to 3 contracts from 4 accounts, momentum with and without the producer's auto-receive phase so inboxes grow, user receives in and out of order, repeated receive, receive by the wrong account, competing higher-plasma receives replacing pooled ones, a hand-generated contract receive for inbox entry #2 while #1 is pending, restart) from 2 base states. After every transition, at the confirmed ledger and the pool view: every send has at most one receiving block and it is made by the addressee; every contract's receive sequence equals a prefix of the queue recomputed from the confirmed chain (momentum order, content order, block before descendants).",
+            "Live-network receiver-enforcement regime; reorganisation is exercised by C06's differential oracle rather than here.",
+            "5/C04"),
+    "C18": ("exploration",
+            "exhaustive product enumeration of paging arguments for every paged RPC method against ground truth from the stores + JSON round trips of all blocks + grammar-enumerated JSON-RPC requests against an in-process server",
+            "29 paged methods (302 method/argument instances) on 4 real chains: full product of 9+ page indices x 7+ page sizes (incl. limit, limit+1, 2^16..2^32-1 and the first indices whose offset needs >32 bits), heights/counts up to 2^64-1; concatenation of all pages of every legal size must list each element exactly once in store order with correct totals, no page above the limit, out-of-range pages empty, no panic. Every block/momentum round-trips through nom and rpc JSON types to identical protobuf bytes and hash (plus 7 synthetic variants each). ~2300 (quick) / ~7000 (thorough) JSON-RPC requests (wrong types at every parameter position, missing/extra/null params, huge numbers, deep nesting, 5 MiB strings, batches, invalid UTF-8, unknown methods, every truncation of valid requests) over ServeHTTP and ServeCodec: always an error response or a correct result, a sentinel call still answered, process (child) survives.",
+            "Grammar-bounded, not all byte strings; websocket/IPC transports and bridge/liquidity lists with data not covered.",
+            "5/C18"),
+    "C19": ("fault_enumeration",
+            "exhaustive single-bit and length corruption of key files + bounded exhaustive input enumeration against an independent SLIP-0010/BIP-39/argon2id+AES-GCM reference",
+            "60 round trips (15 entropies of the 5 allowed sizes x 4 passwords) through Encrypt/Write/Read/Decrypt with cipher text compared to an independent reference on the wallet's own salt/nonce; 555 wrong passwords; every single-bit flip of cipher text, nonce and salt and 21 length edits of 2 (quick) / 60 (thorough) files, plus every single-bit flip of whole key-file bytes: decrypt must fail with an error (never panic) unless the fields decode to the original bytes; derivation for 7 indices x 15 entropies vs the reference (validated against SLIP-0010 vector 1 and BIP-39 vectors in every worker); sign/verify incl. all single-bit flips of signature and public key; every derivation path of <=6/7 tokens over a 9-token alphabet accepted iff hardened and well formed.",
+            "Salt/nonce come from the system CSPRNG (outputs compared modulo those); argon2/AES/ed25519 primitives trusted.",
+            "5/C19"),
+    "C20": ("exploration",
+            "bounded exhaustive enumeration of generated genesis configurations: all permutations of order-free lists, all single-entry perturbations, all ordered config pairs, across child processes",
+            "66 (quick) / 1298 (thorough) generated consistent configurations: hash, content and full raw initial state equal across rebuilds, every permutation of every order-free list, JSON round trip and 2/5 fresh child processes; every single-entry perturbation (55 classes: +-1 on every amount, remove/duplicate/add entries, nil/empty sections) must be rejected whenever an independent sum predicate fails; all 81 ordered pairs of 9 configurations on stores at height 1 and 3: chain.Init errors iff the genesis hashes differ and leaves every key of the store untouched.",
+            "Configurations are generated by construction from small domains.",
+            "5/C20"),
 }
 
 NOT_BUILT_REASON = "check not built yet in this round (work in progress; see DESIGN.md section 5 for the planned model-checking formulation)"
